@@ -146,7 +146,7 @@ pub fn process(
     };
     if !allowed_args.contains(&op_args.len()) {
         bail!(
-            "wrong number of operands for {}: expected {:?}, found {}",
+            "wrong number of operands for {:?}: expected {:?}, found {}",
             op,
             allowed_args,
             op_args.len()
